@@ -512,6 +512,27 @@ func aggqRound4Facts(b *strings.Builder, t *tr) {
 		aggqEmit(b, t2, "wrapAggregator", "", "WrapAggregator", "core/aggregator/netsample/aggregator.go")
 		aggqEmitFieldTable(b, t2, p, "phoutConfigFields", "PhoutConfig")
 		aggqEmitDefaults(b, t2, p, "phoutDefaults", "DefaultPhoutConfig")
+		// the representation of the ten numeric fields of a sample
+		{
+			elem, n := "<missing>", int64(-1)
+			if obj, ok := p.Types.Scope().Lookup("Sample").(*types.TypeName); ok {
+				if st, ok := obj.Type().Underlying().(*types.Struct); ok {
+					for i := 0; i < st.NumFields(); i++ {
+						if st.Field(i).Name() != "fields" {
+							continue
+						}
+						if arr, ok := st.Field(i).Type().Underlying().(*types.Array); ok {
+							elem, n = types.TypeString(arr.Elem(), nil), arr.Len()
+						}
+					}
+				}
+			}
+			if n < 0 {
+				t.errs = append(t.errs, "core/aggregator/netsample/sample.go: Sample has no array field `fields`")
+				n = 0
+			}
+			fmt.Fprintf(b, "/-- regenerated: element type and length of `Sample.fields` -/\ndef sampleFieldsElem : String := %s\ndef sampleFieldsLen : Nat := %d\n\n", aggqLeanStr(elem), n)
+		}
 		t.errs = append(t.errs, t2.errs...)
 	}
 	{
